@@ -7,13 +7,20 @@ Inductive case18 :=
 | K_check (v lo hi : Q) (r : Q) (f : bool)
 | K_tol (v lo hi tol : Q) (r : Q) (f : bool)
 | K_pib (x y xmin ymin xmax ymax tol : Q) (b : bool)
-| K_con (v lo hi : Q) (r : Q).
+| K_con (v lo hi : Q) (r : Q)
+(* a sequence of point_in_bounds calls that were made with one bounds object, changed in place between the calls *)
+| K_pibs (steps : list (Q * Q * Q * Q * Q * Q * Q * bool)).
 
 (* the spec is functional (clamp + flag), so "implementation output satisfies the
    spec" is decided by the direct characterisation, independent of the model *)
 Definition clamp_fn (v lo hi : Q) : Q := if Qltb v lo then lo else if Qltb hi v then hi else v.
+Definition pib_code (x y xmin ymin xmax ymax tol : Q) (b : bool) : Z :=
+  let m := point_in_bounds x y xmin ymin xmax ymax tol in
+  code_of (negb (Bool.eqb m b))
+          (negb (Bool.eqb (negb (Qltb x (xmin - tol) || Qltb (xmax + tol) x) && negb (Qltb y (ymin - tol) || Qltb (ymax + tol) y)) b)).
 Definition check18 (c : case18) : Z :=
   match c with
+  | K_pibs steps => fold_left (fun acc st => match st with (x, y, xmin, ymin, xmax, ymax, tol, b) => Z.lor acc (pib_code x y xmin ymin xmax ymax tol b) end) steps 0%Z
   | K_check v lo hi r f =>
       let m := checkLimits v lo hi in
       code_of (negb (Qeqb (fst m) r && Bool.eqb (snd m) f))
